@@ -56,7 +56,7 @@ def mc_cfgs(ctx):
 def gen_cfgs(ctx):
     if ctx.quick():
         return [base(W=2, K=1, Locals={1}, MaxOps=3, Ks={4}), base(W=3, K=2, Locals={5}, MaxOps=2, Ks={8})]
-    return [base(W=2, K=1, Locals={1}, MaxOps=5, Ks={4}), base(W=2, K=2, Locals={2}, MaxOps=3, Ks={1, 4}),
+    return [base(W=2, K=1, Locals={1}, MaxOps=4, Ks={4}), base(W=2, K=2, Locals={2}, MaxOps=3, Ks={1, 4}),
             base(W=3, K=2, Locals={5}, MaxOps=2, Ks={2, 8}), base(W=3, K=1, Locals={0}, MaxOps=2, Ks={1, 8})]
 
 
@@ -205,7 +205,7 @@ def check(ctx):
         gstats.append({k: g[k] for k in ("behaviours", "transitions", "distinct", "wall_s") if k in g})
     log("GEN: %s" % gstats)
     build_s = cargo_build(ctx, ["routing"])
-    nrand, rlen = (64, 60) if ctx.quick() else (1000, 100)
+    nrand, rlen = (64, 60) if ctx.quick() else (800, 100)
     summ, lines = record(ctx, behs, nrand, rlen)
     log("HARNESS: %s (build %ss)" % (summ, build_s))
     # verdict (Prop layer) and drift detector (exact Impl-layer conformance, never a verdict) side by side
